@@ -150,6 +150,14 @@ def large_domain(tier):
         if not ss:
             continue
         pick = [ss[0], ss[-1]] if tier == 'quick' else ss[::max(1, len(ss) // 5)]
+        # every orientation of a non-cubic lattice: the first size with each
+        # strict order between two sides
+        for a_, b_ in ((0, 1), (1, 0), (1, 2), (2, 1), (0, 2), (2, 0)):
+            if max(a_, b_) < len(ss[0]):
+                hit = [s_ for s_ in ss if s_[a_] < s_[b_]]
+                if hit:
+                    pick.append(hit[0])
+        pick = list(dict.fromkeys(pick))
         for size in pick:
             vs = codes.deformation_variants(name)
             for dname, kw in (vs[:1] + vs[-1:]):
